@@ -369,3 +369,61 @@ func VerifC11Teardown() {
 }
 
 func metav1Types(s string) types.UID { return types.UID(s) }
+
+// VerifC04TeardownPreflight: teardown through the real preflight composition. "Done" must mean that the object is
+// gone or not controlled any more - a preflight answer alone does not make a controlled object disappear.
+func VerifC04TeardownPreflight() {
+	ctl, c, _, uncached, mapper := vC11Setup(true)
+	a := &adapters.ObjectSetAdapter{}
+	a.Name, a.Namespace, a.UID = "me", "ns", "uid-me"
+	a.Generation, a.Status.Revision = 5, 2
+	u := unstructured.Unstructured{Object: map[string]interface{}{}}
+	u.SetAPIVersion("example.com/v1")
+	u.SetKind("Kind0")
+	u.SetName("obj0")
+	a.Spec.Phases = []corev1alpha1.ObjectSetTemplatePhase{{Name: "p", Objects: []corev1alpha1.ObjectSetObject{{Object: u}}}}
+	apiGone := verifrt.Bool("api.removed")
+	if apiGone {
+		mapper.Scope["Kind0"] = verifk8s.ScopeNoMatch
+	}
+	exists := !apiGone && verifrt.Bool("object.exists")
+	if exists {
+		e := u.DeepCopy()
+		e.SetNamespace("ns")
+		e.SetUID("uid-obj0")
+		e.SetResourceVersion("3")
+		t := true
+		e.SetOwnerReferences([]metav1.OwnerReference{{APIVersion: "package-operator.run/v1alpha1", Kind: "ObjectSet", Name: "me", UID: "uid-me", Controller: &t}})
+		uncached.Put(e)
+	}
+	dryRun := verifrt.IntRange("teardown.dryRun", 0, 2) // accepted | Forbidden | Invalid
+	c.Outcome = func(call *verifk8s.Call) error {
+		if call.DryRun {
+			switch dryRun {
+			case 1:
+				return vStatusErr(metav1.StatusReasonForbidden, "forbidden")
+			case 2:
+				return vStatusErr(metav1.StatusReasonInvalid, "invalid")
+			}
+		}
+		return nil
+	}
+	pr := ctl.reconciler[2].(*objectSetPhasesReconciler)
+	done, err := pr.Teardown(context.Background(), a)
+	deletes := 0
+	for _, call := range c.Calls {
+		if call.Verb == "delete" && !call.DryRun {
+			deletes++
+		}
+	}
+	stillControlled := exists // nothing in this pass removes it except our own delete, which only starts deletion
+	verifrt.Assert(!(done && err == nil && stillControlled), "C04/done-only-when-no-object-still-controlled")
+	if exists && dryRun == 0 {
+		verifrt.Assert(deletes == 1 && !done, "C04/controlled-object-deleted-and-awaited")
+		verifrt.Reach("deleted")
+	}
+	if !exists {
+		verifrt.Assert(done && deletes == 0, "C04/absent-object-is-done")
+		verifrt.Reach("absent")
+	}
+}
